@@ -53,9 +53,9 @@ pub(crate) mod kani_verif {
     }
     // @h name=c13_lifetime_l1 props=C13,C05 tier=quick kind=proved cfg=w8 funcs=HssPrivateKey::get_lifetime;LmsParameter::number_of_lm_ots_keys contract="get_lifetime == N - c for every counter and every height list of length 1"
     lifetime_harness!(c13_lifetime_l1, 1);
-    // @h name=c13_lifetime_l2 props=C13,C05 tier=quick kind=proved cfg=w8 funcs=HssPrivateKey::get_lifetime contract="same, length 2"
+    // @h name=c13_lifetime_l2 props=C13,C05! tier=quick kind=proved cfg=w8 funcs=HssPrivateKey::get_lifetime contract="same, length 2"
     lifetime_harness!(c13_lifetime_l2, 2);
-    // @h name=c13_lifetime_l3 props=C13,C05 tier=quick kind=proved cfg=w8 funcs=HssPrivateKey::get_lifetime contract="same, length 3 (total height up to 75: no arithmetic failure)"
+    // @h name=c13_lifetime_l3 props=C13,C05! tier=quick kind=proved cfg=w8 funcs=HssPrivateKey::get_lifetime contract="same, length 3 (total height up to 75: no arithmetic failure)"
     lifetime_harness!(c13_lifetime_l3, 3);
     // @h name=c13_lifetime_l4 props=C13,C05 tier=thorough kind=proved cfg=w8 funcs=HssPrivateKey::get_lifetime contract="same, length 4"
     lifetime_harness!(c13_lifetime_l4, 4);
@@ -320,7 +320,7 @@ pub(crate) mod kani_verif {
     }
     // @h name=c03_from_l1 props=C03,C07,C01,C05,C13,C10 tier=quick kind=proved cfg=w8 timeout=2400 funcs=HssPrivateKey::from contract="expanded key of counter c: level i tree = derive(level i-1 (seed,I), digit i-1), current leaf = digit i; child public key i signed by level i-1 leaf digit i-1 over its serialisation; used-leaf vector = digits (+1 above bottom); every counter, all heights; callees by contract; L=1"
     from_harness!(c03_from_l1, 1);
-    // @h name=c03_from_l2 props=C03,C07,C01,C05,C13,C10 tier=quick kind=proved cfg=w8 timeout=2400 funcs=HssPrivateKey::from contract="same, L=2"
+    // @h name=c03_from_l2 props=C03,C07!,C01!,C05,C13!,C10! tier=quick kind=proved cfg=w8 timeout=2400 funcs=HssPrivateKey::from contract="same, L=2"
     from_harness!(c03_from_l2, 2);
     // @h name=c03_from_l3 props=C03,C07,C01,C05,C13,C10 tier=thorough kind=proved cfg=w8 timeout=3600 funcs=HssPrivateKey::from contract="same, L=3"
     from_harness!(c03_from_l3, 3);
@@ -365,7 +365,7 @@ pub(crate) mod kani_verif {
         kani::cover!(len > 40 && !used, "fresh buffer with a cached level reachable");
         kani::cover!(used, "in-use buffer reachable");
     }
-    // @h name=c10_aux_front_n16 props=C10,C11 tier=quick kind=proved cfg=w8 timeout=2400 funcs=HssPrivateKey::get_expanded_aux_data;hss_is_aux_data_used;hss_get_aux_data_len;hss_store_aux_marker contract="every buffer of length 0..100 and every content: no panic; fresh buffers are shrunk, zeroed and marked before use (stale contents never read back); in-use buffers go through the MAC check (compute_hmac by contract)"
+    // @h name=c10_aux_front_n16 props=C10,C11! tier=quick kind=proved cfg=w8 timeout=2400 funcs=HssPrivateKey::get_expanded_aux_data;hss_is_aux_data_used;hss_get_aux_data_len;hss_store_aux_marker contract="every buffer of length 0..100 and every content: no panic; fresh buffers are shrunk, zeroed and marked before use (stale contents never read back); in-use buffers go through the MAC check (compute_hmac by contract)"
     #[kani::proof]
     #[kani::stub(zeroize::optimization_barrier, no_barrier)]
     #[kani::stub(<[u8; 32] as tinyvec::Array>::default, fast_default)]
@@ -419,11 +419,11 @@ pub(crate) mod kani_verif {
     }
     // @h name=c11_keygen_len0 props=C11,C08 tier=quick kind=proved cfg=w8 timeout=1800 funcs=hss_keygen;ReferenceImplPrivateKey::generate;CompressedParameterSet::from;HssPublicKey::from;HssPublicKey::to_binary_representation;SigningKey::from_bytes;VerifyingKey::from_bytes contract="keygen with an empty parameter list: Err, no panic"
     keygen_harness!(c11_keygen_len0, 0);
-    // @h name=c11_keygen_len1 props=C11,C08 tier=quick kind=proved cfg=w8 timeout=1800 funcs=hss_keygen;HssPublicKey::from;HssPublicKey::to_binary_representation contract="1 level: Ok; private blob = be64(0)||param bytes||seed; public key = u32(L)||u32(lms)||u32(lmots)||I||T[1] (tree generation by contract)"
+    // @h name=c11_keygen_len1 props=C11,C08! tier=quick kind=proved cfg=w8 timeout=1800 funcs=hss_keygen;HssPublicKey::from;HssPublicKey::to_binary_representation contract="1 level: Ok; private blob = be64(0)||param bytes||seed; public key = u32(L)||u32(lms)||u32(lmots)||I||T[1] (tree generation by contract)"
     keygen_harness!(c11_keygen_len1, 1);
     // @h name=c11_keygen_len8 props=C11,C08 tier=quick kind=proved cfg=w8 timeout=1800 funcs=hss_keygen contract="8 levels: Ok"
     keygen_harness!(c11_keygen_len8, 8);
-    // @h name=c11_keygen_len9 props=C11,C14 tier=quick kind=proved cfg=w8 timeout=1800 funcs=hss_keygen;CompressedParameterSet::from contract="9 levels: Err, no panic"
+    // @h name=c11_keygen_len9 props=C11,C14! tier=quick kind=proved cfg=w8 timeout=1800 funcs=hss_keygen;CompressedParameterSet::from contract="9 levels: Err, no panic"
     keygen_harness!(c11_keygen_len9, 9);
     // @h name=c11_keygen_len10 props=C11,C14 tier=thorough kind=proved cfg=w8 timeout=1800 funcs=hss_keygen;CompressedParameterSet::from contract="10 levels: Err, no panic"
     keygen_harness!(c11_keygen_len10, 10);
@@ -469,7 +469,7 @@ pub(crate) mod kani_verif {
     limits_harness!(c14_limits_L2small_l1, 1);
     // @h name=c14_limits_L2small_l2 props=C14,C11 tier=quick kind=proved cfg=L2small timeout=1800 funcs=hss_keygen;CompressedParameterSet::from;CompressedParameterSet::to contract="same, all 2-level lists"
     limits_harness!(c14_limits_L2small_l2, 2);
-    // @h name=c14_limits_L2small_l3 props=C14,C11 tier=quick kind=proved cfg=L2small timeout=1800 funcs=hss_keygen;CompressedParameterSet::from contract="same, 3-level lists (beyond the level limit): Err"
+    // @h name=c14_limits_L2small_l3 props=C14,C11! tier=quick kind=proved cfg=L2small timeout=1800 funcs=hss_keygen;CompressedParameterSet::from contract="same, 3-level lists (beyond the level limit): Err"
     limits_harness!(c14_limits_L2small_l3, 3);
     // @h name=c14_limits_default_l2 props=C14,C11 tier=thorough kind=proved cfg=w8 timeout=1800 funcs=hss_keygen contract="W8-minimum build, 2-level lists"
     limits_harness!(c14_limits_default_l2, 2);
